@@ -285,7 +285,8 @@ type wgen struct {
 	rng            *rand.Rand
 	maxDepth       int
 	nrec           int
-	noGeneralUnion bool // only nullable unions (the library has no writer for general unions)
+	noGeneralUnion bool
+	nullLeaves     bool // null as a field / item / map value type (read-side generators) // only nullable unions (the library has no writer for general unions)
 	withTime       bool // logical date/timestamp leaves and string leaves targeted at time.Time
 }
 
@@ -308,7 +309,7 @@ func (g *wgen) schema(depth int) *asch {
 		}
 	}
 	if depth >= g.maxDepth || r.Intn(3) == 0 {
-		if r.Intn(14) == 0 {
+		if g.nullLeaves && r.Intn(14) == 0 {
 			return &asch{kind: "null"} // null as a field, item or map value type
 		}
 		k := r.Intn(len(primKinds) + 1)
